@@ -10,7 +10,7 @@ open YaegiVerif.Expected.C04 (share)
 theorem lookup2Y_spec (st : St) (x ok : Name) (m : LExp) (k : IExp) (zero : Val) (hne : x ≠ ok) :
     lookup2Y share false st true x ok m k zero = Spec.lookup2 st true x ok m k zero := by
   unfold lookup2Y Spec.lookup2
-  simp only [bind, Except.bind, share_lookup2OnlyIfValid, if_true, Bool.not_false, Bool.and_self]
+  simp only [bind, Except.bind, share_lookup2OnlyIfValid, if_true, Bool.not_false, Bool.and_self, Bool.false_eq_true, if_false]
   cases resolve st m with
   | error e => rfl
   | ok loc =>
@@ -33,19 +33,43 @@ theorem lookup2Y_spec (st : St) (x ok : Name) (m : LExp) (k : IExp) (zero : Val)
           | some v =>
             simp [St.fresh, St.alloc, St.bind, St.var, lookupEnv, hne, hne', St.write, writeLoc, Val.put, Spec.declare, boolVal]
 
+/-- `x, ok = m[k]` (the zero value is stored for a missing key since commit 6b8d7ae of the repository) -/
+theorem lookup2Y_assign_spec (st : St) (reexec : Bool) (x ok : Name) (m : LExp) (k : IExp) (zero : Val) :
+    lookup2Y share reexec st false x ok m k zero = Spec.lookup2 st false x ok m k zero := by
+  unfold lookup2Y Spec.lookup2
+  simp only [bind, Except.bind, share_lookup2OnlyIfValid, Bool.false_and, Bool.false_eq_true, if_false]
+  cases resolve st m with
+  | error e => rfl
+  | ok loc =>
+    simp only
+    cases st.read loc with
+    | error e => rfl
+    | ok mv =>
+      simp only
+      cases keyVal st k with
+      | error e => rfl
+      | ok key =>
+        simp only
+        cases mapLookup st mv key with
+        | error e => rfl
+        | ok r =>
+          simp only
+          cases st.var x with
+          | error e => rfl
+          | ok lx =>
+            simp only
+            cases st.var ok with
+            | error e => rfl
+            | ok lok => cases r <;> rfl
+
 /-- one statement: in the domain the mechanism computes the specification's state -/
 theorem sopY_spec (G : Growth) (st : St) (o : SOp) (inBody reexec : Bool) (hre : reexec = true → inBody = true)
     (h : sopClass inBody o = none) : sopY share G reexec st o = Spec.sop G st o := by
   cases o with
-  | assign l r => exact assignY_spec st l r inBody h
+  | assign l r => exact assignY_spec st l r
   | opassign l k => rfl
   | define x r => exact defineY_spec st x r inBody reexec hre h
-  | multi ls rs =>
-    have hs : multiHasShortcut ls rs = false := by
-      cases hc : multiHasShortcut ls rs with
-      | false => rfl
-      | true => simp [sopClass, hc] at h
-    exact multiY_spec st ls rs hs
+  | multi ls rs => exact multiY_spec st ls rs
   | multidef xs rd zs rs => exact multidefY_spec st xs rd zs rs inBody reexec h
   | append isDef l s args zero esz noscan =>
     have ha : aliasArgs args = false := by
@@ -58,23 +82,22 @@ theorem sopY_spec (G : Growth) (st : St) (o : SOp) (inBody reexec : Bool) (hre :
   | mapSet m k r => exact mapSetY_spec st m k r
   | mapDel m k => rfl
   | lookup2 isDef x ok m k zero =>
-    have hd : isDef = true := by
-      cases hc : isDef with
-      | true => rfl
-      | false => simp [sopClass, hc] at h
-    have hb : inBody = false := by
-      cases hc : inBody with
-      | false => rfl
-      | true => simp [sopClass, hc] at h
-    have hx : x ≠ ok := by
-      intro e
-      simp [sopClass, hd, hb, e] at h
-    have hr : reexec = false := by
-      cases hc : reexec with
-      | false => rfl
-      | true => rw [hre hc] at hb; cases hb
-    subst hd; subst hr
-    exact lookup2Y_spec st x ok m k zero hx
+    cases isDef with
+    | false => exact lookup2Y_assign_spec st reexec x ok m k zero
+    | true =>
+      have hb : inBody = false := by
+        cases hc : inBody with
+        | false => rfl
+        | true => simp [sopClass, hc] at h
+      have hx : x ≠ ok := by
+        intro e
+        simp [sopClass, hb, e] at h
+      have hr : reexec = false := by
+        cases hc : reexec with
+        | false => rfl
+        | true => rw [hre hc] at hb; cases hb
+      subst hr
+      exact lookup2Y_spec st x ok m k zero hx
   | callMut isDef l sel k arg => exact callMutY_spec st isDef l sel k arg
   | «show» xs => rfl
 
